@@ -106,6 +106,15 @@ def _do_make_formula_body(formula, default_value, assoc_value=None):
 
   formula_builder_text = textbuilder.Text(formula, assoc_value)
 
+  # Python's tokenizer ends a physical line at "\r\n" and at a lone "\r" as well as at "\n", but the
+  # line-based regular expressions below (`^` with re.M in _dedent, _indent, line_start_re) only know
+  # "\n". Normalize line endings the way the tokenizer does before anything looks at lines, so that
+  # e.g. "foo(\rbar" cannot leave `bar` outside the commented-out text of a syntax-error stub or outside
+  # the function body. Done with a Replacer, so that positions still map back to the stored formula.
+  newline_patches = textbuilder.make_regexp_patches(formula, _universal_newline_re, '\n')
+  if newline_patches:
+    formula_builder_text = textbuilder.Replacer(formula_builder_text, newline_patches)
+
   # Remove any common leading whitespace. In python, extra indent should not be an error, but
   # it is in Grist because we parse the formula body before it gets inserted into a function (i.e.
   # as if at module level). We have to do it using textbuilder as elsewhere (making changes to a
@@ -204,6 +213,8 @@ def _do_make_formula_body(formula, default_value, assoc_value=None):
   return final_formula
 
 
+# Line endings other than "\n" that Python's tokenizer recognizes.
+_universal_newline_re = re.compile(r'\r\n?')
 _whitespace_only_re = re.compile('^[ \t]+$', re.MULTILINE)
 _leading_whitespace_re = re.compile('(^[ \t]*)(?:[^ \t\n])', re.MULTILINE)
 
